@@ -380,7 +380,7 @@ class ICvi(Subject):
 
     def spec_like(self, r, spec):
         # `offline` is exposed by get_params since /repo 9f458f8, so it varies like any other parameter
-        return s
+        return self.spec(r, spec["_d"])
 
     def data(self, r, spec, n):
         return Data(specs.elem_data(r, "FuzzyART", n, spec["_d"]))
